@@ -39,13 +39,14 @@ func compile(t Term, env *Env) (clauses, error) {
 	if t, ok := t.(Compound); ok && t.Functor() == atomIf && t.Arity() == 2 {
 		var cs clauses
 		head, body := t.Arg(0), t.Arg(1)
+		raw := env.simplify(t)
 		iter := altIterator{Alt: body, Env: env}
 		for iter.Next() {
 			c, err := compileClause(head, iter.Current(), env)
 			if err != nil {
 				return nil, typeError(validTypeCallable, body, env)
 			}
-			c.raw = t
+			c.raw = raw
 			cs = append(cs, c)
 		}
 		return cs, nil
